@@ -1,4 +1,6 @@
-// Package c17: correspondence ops for C17 (stub, not yet built).
+// Package c17: scarce capacity is never over-committed in a scheduling pass — capacity reservations
+// (ReservationManager, NodeClaim.offeringsToReserve/Add/FinalizeScheduling, whole real passes) and the DRA
+// allocation tracker, real code vs the Lean model and judged by the Lean specification.
 package c17
 
 import (
@@ -8,4 +10,6 @@ import (
 
 func init() { registry.Register("C17", Ops) }
 
-func Ops() []*core.Op { return nil }
+func Ops() []*core.Op {
+	return []*core.Op{opRM(), opClaims(), opPass(), opDRA(), opAlloc(), opDraPass()}
+}
